@@ -127,6 +127,15 @@ class ContractAPI(object):
         return Contract(script_info, self._network)
 
     def info_for_script(self, script: bytes) -> dict[str, Any]:
+        info = self._classify_script(script)
+        # the templates are matched on the *data* of their pushes only: a script that pushes the
+        # same data with another opcode (or counts its keys with something other than OP_1..OP_16)
+        # merely resembles the template.  Report a kind only if it rebuilds to the very same bytes.
+        if self.for_info(info) != script:
+            return dict(type="unknown", script=script)
+        return info
+
+    def _classify_script(self, script: bytes) -> dict[str, Any]:
         d = self.match(
             "OP_DUP OP_HASH160 'PUBKEYHASH' OP_EQUALVERIFY OP_CHECKSIG", script
         )
